@@ -511,6 +511,10 @@ def dh_secret_rules(prog, chk, pid):
                     m = _re.fullmatch(r"%0(\d+)x", cval(inner.args[1]))
                     num = unsnap(inner.args[2])
                     good = bool(m) and int(m.group(1)) == _ndigits_width(order) and num.op == "param" and num.args[0] == fn.params[0]
+                    if not good and cval(inner.args[1]) == "%0*x" and num.op == "tuple" and len(num.args[0]) == 2:
+                        # "%0*x" % (width, num): the width is taken from the argument list
+                        w_, n_ = unsnap(num.args[0][0]), unsnap(num.args[0][1])
+                        good = is_const(w_) and cval(w_) == _ndigits_width(order) and n_.op == "param" and n_.args[0] == fn.params[0]
         if not good:
             bad.append(nm)
     chk.require(not bad, P("number-to-string-fixed-width"), fn.qualname, "unhexlify(('%%0%dx' %% num)) for P-256; %d moduli evaluated" % (64, len(primes)), "%s:%d" % (fn.file, fn.lineno),
